@@ -16009,7 +16009,12 @@ R_<TG_, TA_>::load(ReadStream& stream) noexcept {
 	TransitionSets emptyTransitions;
 	PlanControl control{_core, emptyTransitions};
 
+	// exits and enters performed by the commit rewrite the resumable prongs - keep the loaded ones
+	const CompoForks resumable = _core.registry.compoResumable;
+
 	_apex.deepChangeToRequested(control);
+
+	_core.registry.compoResumable = resumable;
 
 	HFSM2_IF_STRUCTURE_REPORT(udpateActivity());
 }
@@ -16619,7 +16624,12 @@ RV_<G_<NFT_, TC_, Manual, TRO_ HFSM2_IF_UTILITY_THEORY(, TR_, TU_, TG_), NSL_ HF
 	TransitionSets emptyTransitions;
 	PlanControl control{_core, emptyTransitions};
 
+	// entering clears a resumable prong that equals the entered one - keep the loaded ones
+	const typename Base::CompoForks resumable = _core.registry.compoResumable;
+
 	_apex.deepEnter(control);
+
+	_core.registry.compoResumable = resumable;
 
 	HFSM2_IF_STRUCTURE_REPORT(udpateActivity());
 }
